@@ -161,10 +161,12 @@ def make_target(spec):
 
         if "chars" in kw:
             cs = kw["chars"]
+            if isinstance(cs, bytes):
+                cs = cs.decode("utf-8")  # the documented reading of a bytes alphabet: its UTF-8 decoding, symbol = character
         else:
             cs = P.default_charsets[kw.get("charset", "ascii_62")]
         return dict(f=f, hint=len(cs), expect_len=None, space=None, legal=lambda pos: set(cs),
-                    min_entropy=(kw.get("entropy"), len(cs)), min_len=kw.get("length"))
+                    min_entropy=(_requested_entropy(kw), len(cs)), min_len=kw.get("length"))
     if kind == "genphrase":
         from passlib import pwd as P
 
@@ -183,7 +185,7 @@ def make_target(spec):
 
         wset = set(words)
         return dict(f=f, hint=len(words), expect_len=None, space=None, legal=lambda pos: wset,
-                    min_entropy=(kw.get("entropy"), len(words)), min_len=kw.get("length"))
+                    min_entropy=(_requested_entropy(kw), len(words)), min_len=kw.get("length"))
     if kind == "django_disabled":
         H = HS.handler("django_disabled")
         from passlib.utils.binary import BASE64_CHARS
@@ -251,6 +253,17 @@ def make_target(spec):
     raise core.HarnessError(f"unknown target {kind}")
 
 
+#: documented entropy aliases of passlib.pwd (docs/lib/passlib.pwd.rst); "strong" is the documented default
+ENTROPY_ALIASES = {"unsafe": 12, "weak": 24, "fair": 36, "strong": 48, "secure": 60}
+
+
+def _requested_entropy(kw):
+    ent = kw.get("entropy")
+    if ent is None and kw.get("length") is None:
+        ent = "strong"
+    return ENTROPY_ALIASES.get(ent, ent)
+
+
 def tname(spec):
     k = spec["kind"]
     if k == "getrandbytes":
@@ -267,7 +280,7 @@ def tname(spec):
         return f"generate_secret({spec['entropy']},{len(spec.get('charset') or '') or 'default'})"
     if k in ("genword", "genphrase"):
         kw = spec["kw"]
-        return f"{k}(" + ",".join(f"{a}={(len(b) if a in ('chars', 'words') else b)}" for a, b in sorted(kw.items())) + ")"
+        return f"{k}(" + ",".join(f"{a}={((type(b).__name__ + str(len(b)) + ('' if not isinstance(b, (str, bytes)) or (b if isinstance(b, str) else b.decode('utf-8')).isascii() else 'nonascii')) if a in ('chars', 'words') else b)}" for a, b in sorted(kw.items())) + ")"
     if k == "libpass_salt":
         return f"libpass.{spec['fn']}({spec['arg']})"
     if k == "libpass_hasher_salt":
@@ -775,6 +788,14 @@ def targets(quick, seed):
     for n in (2, 3, 7, 94):
         ts.append({"kind": "genword", "kw": {"chars": base94[:n], "entropy": 40}})
         ts.append({"kind": "genword", "kw": {"chars": base94[:n], "length": 6}})
+    # the same alphabet spelled as text and as UTF-8 bytes (multi-byte characters: symbol count != byte count)
+    for alpha in ("ab", "\u03b1\u03b2\u03b3\u03b4", "a\u00e9\u00f6z", "\u20ac$\u00a3\u00a5\u20b9", "\u65e5\u672c\u8a9e", "x\U0001f600"):
+        for form in (alpha, alpha.encode("utf-8")):
+            for ent in ((12, 48) if quick else (1, 12, 36, 48, 64, 128)):
+                ts.append({"kind": "genword", "kw": {"chars": form, "entropy": ent}})
+            ts.append({"kind": "genword", "kw": {"chars": form, "length": 5}})
+            ts.append({"kind": "genword", "kw": {"chars": form}})
+            ts.append({"kind": "genword", "kw": {"chars": form, "entropy": "fair"}})
     for ws in ("eff_long", "eff_short", "eff_prefixed", "bip39"):
         for ent in ((1, 20, 48, 128) if quick else (1, 10, 13, 20, 26, 48, 64, 77, 128)):
             for length in (None, 1, 5):
